@@ -59,7 +59,7 @@ func ProductionMode() bool {
 // standard flags, no caller info (properties that need it switch it on), and
 // the no-interrupt flag so that Panic/Fatal severities never terminate (C12
 // owns termination).
-const BaseFlags = (slog.LstdFlags &^ (slog.Lcaller | slog.Llineno)) | slog.LnoInterrupt
+const BaseFlags = (slog.LstdFlags &^ (slog.Lcaller | slog.Llineno | slog.LattrsR)) | slog.LnoInterrupt // (inheritance off explicitly: what the package's standard flags contain is not stated anywhere)
 
 // Canon puts every piece of process-wide state of the package that has a public
 // setter back to a canonical value and returns a function restoring the level
